@@ -245,12 +245,13 @@ static void enumerate(report& r)
                 if (src == src_weight)
                 {
                     zero_at = g.observed;
-                    if (zero_at.empty()) { r.count("weight_poison_without_non_finite_product"); continue; }   // the premise of the property is not met
-                    // a NaN in the density slot of a disabled channel that did not make the point non-finite is garbage in
-                    // a slot nobody has to read: what becomes of it is not this property's business
-                    bool unspecified = false;
-                    for (sz i = 0; i != members.size(); ++i) unspecified |= a[i] == 4 && !zero_at.count(members[i]) && base_value<T>(members[i], T(0.5)) != T();
-                    if (unspecified) { r.count("weight_poison_without_non_finite_product"); continue; }
+                    // A NaN in the density slot of a *disabled* channel (kind 4): the documentation says that such a density "will be
+                    // ignored".  Either the library does not ignore it and the point is non-finite (observed above, zeroed in the
+                    // pair), or it ignores it - then completely: the run must equal the pair, which never saw that NaN.  Any other
+                    // poison that does not make the product non-finite leaves the premise of the property unmet.
+                    bool ignored_slot = false;
+                    for (sz i = 0; i != members.size(); ++i) ignored_slot |= a[i] == 4 && !zero_at.count(members[i]);
+                    if (zero_at.empty() && !ignored_slot) { r.count("weight_poison_without_non_finite_product"); continue; }
                 }
                 if (!pairs.count(zero_at)) { g.paired = true; g.zero_at = zero_at; pairs[zero_at] = run<T>(kind, dist != 0); g.paired = false; }
                 run_out const& pair = pairs[zero_at];
